@@ -365,12 +365,74 @@ fn run_suite<S: ShortGroupSignatureScheme>(em: &mut Emitter, base: &mut Rng, sui
     }
 }
 
+/// coins of the blind-request prover: the same random seed with two nonces gives one commitment and two
+/// challenges; the recovered coins must be free of exact low-degree relations with each other and with the
+/// secrets (hidden values, blinding factor)
+fn blind_coin_relations<S: ShortGroupSignatureScheme>(em: &mut Emitter, rng: &mut Rng, suite: &str) {
+    use rand_chacha::rand_core::SeedableRng;
+    use std::num::NonZeroUsize;
+    let mut previous: Vec<Scalar> = vec![];
+    for k in 0..em.n(6, 40) {
+        let n = 2 + rng.below(4) as usize;
+        let (pk, _sk) = match S::new_keys(NonZeroUsize::new(n).unwrap(), rng.chacha()) {
+            Ok(x) => x,
+            Err(_) => continue,
+        };
+        let mut hidden: Vec<(usize, Scalar)> = vec![];
+        for i in 0..n {
+            if rng.coin() {
+                hidden.push((i, rng.scalar()));
+            }
+        }
+        if hidden.is_empty() {
+            continue;
+        }
+        let seed = rng.seed32();
+        let (n1, n2) = (rng.scalar(), rng.scalar());
+        let run = |nonce: Scalar| S::new_blind_signature_context(&hidden, &pk, nonce, rand_chacha::ChaCha20Rng::from_seed(seed)).ok().map(|(ctx, b)| (serde_json::to_value(&ctx).unwrap_or(Value::Null), b));
+        let ((j1, b1), (j2, _)) = match (run(n1), run(n2)) {
+            (Some(a), Some(b)) => (a, b),
+            _ => continue,
+        };
+        if j1["commitment"] != j2["commitment"] {
+            em.count(&format!("{}:blind-commitment-not-reproducible", suite));
+            continue;
+        }
+        let resp = |j: &Value| -> Vec<Scalar> { j["proofs"].as_array().map(|a| a.iter().filter_map(|x| x.as_str().and_then(sc_from_hex)).collect()).unwrap_or_default() };
+        let (r1, r2) = (resp(&j1), resp(&j2));
+        let (c1, c2) = match (j1["challenge"].as_str().and_then(sc_from_hex), j2["challenge"].as_str().and_then(sc_from_hex)) {
+            (Some(a), Some(b)) if a != b => (a, b),
+            _ => continue,
+        };
+        if r1.len() != r2.len() || r1.is_empty() {
+            continue;
+        }
+        let dinv = (c1 - c2).invert().unwrap();
+        let mut coins = vec![];
+        let mut secrets: Vec<(String, Scalar)> = vec![("blinder".to_string(), b1)];
+        for i in 0..r1.len() {
+            let w = (r1[i] - r2[i]) * dinv;
+            coins.push((format!("coin[{}]", i), r1[i] - c1 * w));
+            secrets.push((format!("secret[{}]", i), w));
+        }
+        em.oracle_case(&format!("{} blind coins {}", suite, k));
+        for r in coin_relations(&coins, &secrets, &previous) {
+            em.violation("c16:blind-coins-related", format!("{}: the blind request prover's coins satisfy an exact relation: {} — the transmitted responses then give the secret away", suite, r), json!({"suite": suite, "relation": r, "context_1": j1, "context_2": j2}));
+        }
+        previous.extend(coins.iter().map(|(_, c)| *c));
+    }
+}
+
 pub fn gen_c16(em: &mut Emitter, rng: &mut Rng) {
     em.rule = "schemas of 4..6 claims whose alphabetical label order differs from schema order, random blindable sets: the three-step flow for every \
                non-empty blindable subset (unblinded credential = union vector, signature and handle verify); deviating holders: non-blindable claim \
                blinded (knox API), label both blinded and known, label listed twice, nonce / commitment / challenge / each response altered, response \
                vectors of every length, over-long vector with recomputed challenge and a commitment carrying an issuer-known generator, known-generator \
-               component added to an honest commitment; hiding: candidate test of the commitment".into();
+               component added to an honest commitment; hiding: candidate test of the commitment, general request distinguisher, exact-relation test on the prover's coins recovered from two nonces under one random seed".into();
     run_suite::<Bbs>(em, rng, "bbs");
     run_suite::<Ps>(em, rng, "ps");
+    if em.mine(2 * em.n(10, 80)) {
+        blind_coin_relations::<Bbs>(em, &mut rng.sub(5001), "bbs");
+        blind_coin_relations::<Ps>(em, &mut rng.sub(5002), "ps");
+    }
 }
